@@ -129,6 +129,24 @@ let handle = function
     let vs = List.map (fun x -> string_of_cz (z_a x)) order in
     let pick blocked = (try Some (List.find (fun v -> not (List.mem v blocked)) vs) with Not_found -> None) in
     L (List.map (fun v -> A v) (enumerate pick (nat_of_int (int_of_string n)) []))
+  | L [A "subst"; L m; L vs; e] ->
+    let m' = List.map (function L [k; v] -> (expr_of k, expr_of v) | _ -> failwith "subst map") m in
+    let vs' = List.map (function L [A b; n] -> ((b = "1"), z_a n) | _ -> failwith "subst vars") vs in
+    res_sexp sexp_of_expr (subst m' vs' (expr_of e))
+  | L [A "replace"; e; o; n] -> res_sexp sexp_of_expr (replace (expr_of e) (expr_of o) (expr_of n))
+  | L [A "canon"; e] -> res_sexp (fun (c, r) -> L [a_z c; sexp_of_expr r]) (canonicalize (expr_of e))
+  | L [A "ite_cases"; L cs; d] ->
+    let cs' = List.map (function L [c; v] -> (expr_of c, expr_of v) | _ -> failwith "cases") cs in
+    res_sexp sexp_of_expr (ite_cases (mk fuel) cs' (expr_of d))
+  | L [A "ite_dict"; i; L kv; d] ->
+    let kv' = List.map (function L [k; v] -> (z_a k, expr_of v) | _ -> failwith "dict") kv in
+    res_sexp sexp_of_expr (ite_dict (mk fuel) (nat_of_int 40) (expr_of i) kv' (expr_of d))
+  | L [A "rev_ite"; e] ->
+    res_sexp (fun l -> L (List.map (fun (c, v) -> L [sexp_of_expr c; sexp_of_expr v]) l))
+      (reverse_ite_cases (mk fuel) (nat_of_int 4000) (expr_of e))
+  | L [A "chop"; e; b] -> res_sexp (fun l -> L (List.map sexp_of_expr l)) (chop (mk fuel) (expr_of e) (z_a b))
+  | L [A "get_bytes"; e; i; n] -> res_sexp sexp_of_expr (get_bytes (mk fuel) (expr_of e) (z_a i) (z_a n))
+  | L [A "excavate"; e] -> res_sexp sexp_of_expr (excavate (mk fuel) (expr_of e))
   | L [A "meta"; e] ->
     let x = expr_of e in
     L [A (if symbolic x then "1" else "0"); A (string_of_int (int_of_nat (depth x))); a_z (elen x)]
